@@ -10,7 +10,7 @@ use crate::{
     gen::{chacha, rand_scalar, some_seed_strategy, triple_strategy, Cfg, SeedSpec, Triple, TripleSpec, BITS},
     mutate::{proof_mut, st_mut, Applied, ProofMut, PubStatement, StMut},
     props::c03::{build_member, verify_members, Member, PoolMember},
-    runner::{guarded, no_fixed, sub, CaseLog, PropertyDef, RunCtx, Sub},
+    runner::{guarded, setup, SKIP, no_fixed, sub, CaseLog, PropertyDef, RunCtx, Sub},
 };
 
 #[derive(Clone, Debug, Serialize, Deserialize, PartialEq, Eq, Hash)]
@@ -98,7 +98,7 @@ pub fn oracle<E: Engine>(_ctx: &RunCtx, spec: &KeySpec, log: &mut CaseLog) -> Re
     let seed_a = t.seed.ok_or("generator bug: no seed")?;
     let seed_b = spec.other.apply(&seed_a);
     let truth = t.blindings[0].clone();
-    let proof0 = guarded(|| t.prove())?.map_err(|e| format!("prover refused a valid witness: {:?}", e))?;
+    let proof0 = setup(guarded(|| t.prove()), "the prover refused or panicked on a valid witness (C01's subject)")?;
     // optional alterations
     let mut bytes = proof0.to_bytes();
     let mut altered = false;
@@ -242,7 +242,7 @@ pub fn oracle<E: Engine>(_ctx: &RunCtx, spec: &KeySpec, log: &mut CaseLog) -> Re
     }
     // an unaltered triple is accepted
     if !altered && verdict != Some(true) {
-        return Err("unaltered honest triple rejected".into());
+        return Err(format!("{} the unaltered honest triple is rejected (C01's subject)", SKIP));
     }
     let okind = format!("{:?}", spec.other).split('(').next().unwrap().to_string();
     log.label(format!("engine={}", E::NAME));
